@@ -311,6 +311,8 @@ func createJSONAndEvalFunctions(c *Config) {
 		MaxArgs:  1,
 		ArgTypes: []object.Type{object.STRING},
 		Help:     "filename (.gr)",
+		// IOs: must run each time (a memoized caller would skip writing/reading the file).
+		DontCache: true,
 	}
 	if c.HasSave {
 		loadSaveFn.Name = "save"
